@@ -315,7 +315,14 @@ def blind_spot_batches(rng, tier):
     ops = [f"o.ctor {c} {v}" for c, v in prod(CATS, D)]
     ops += [f"e.ctor {c} {k} {v}" for c, k, v in prod(CATS, "FS", D)]
     ops += [f"v.ctor {c} {v}" for c, v in prod(CATS, VAR)]
-    yield Batch("constructors", ops, exhaustive=True, note="object_impl.hpp constructors of optional / either / variant from an lvalue, const lvalue, rvalue: an lvalue argument is unchanged")
+    for kind, vals in (("o", OPT), ("e", EITH), ("v", VAR)):
+        ops += [f"{kind}.asg {k} {a} {b}" for k, a, b in prod(["copy", "move", "swap"], vals, vals)]
+        ops += [f"{kind}.asg {k} {a} {b}" for k, a, b in prod(["cctor", "mctor"], vals[:1], vals)]
+        ops += [f"{kind}.asg {k} {a} {a}" for k, a in prod(["self", "selfmove", "selfswap"], vals)]
+    ops += [f"o.assign.own {o}" for o in OPT[1:]]
+    yield Batch("constructors", ops, exhaustive=True, note="object_impl.hpp constructors of optional / either / variant from an lvalue, const lvalue, rvalue (an lvalue "
+                     "argument is unchanged); the implicitly defined copy/move construction and assignment and std::swap on all pairs "
+                     "(the alternative changes), self-assignment, self-move, self-swap; assign(o, move(own content))")
 
     # ---- containers longer than the exhaustive scope
     def rlist(vals, lo=5, hi=14):
